@@ -65,7 +65,10 @@ def table_rule(ctx, rule, path):
     fv = ctx.need(rule, path)
     if fv is None:
         return
-    S = ("param", 0)
+    # the square size as an f64: the parameter itself, or — when the (private) function takes the integer and converts
+    # it in its first statement — that conversion (the constructor rule accepts the matching call-site form only)
+    pty0 = (fv.fn.get("param_tys") or ["f64"])[0]
+    S = ("param", 0) if pty0 == "f64" else ("cast", "f64", ("param", 0))
     res = fv.term(fv.body.get("expr")) if fv.body.get("expr") else ("none",)
     arrays = [s for s in subterms(res) if s[0] == "array"]
     if res[0] == "tup" and len(res) == 3 and not arrays and res[2][0] == "local":
@@ -206,7 +209,14 @@ def ctor_rule(ctx, rule, ctor, adt):
     c, m = fs.get("cgr_center"), fs.get("cgr_map")
     vp = param_index(fv, "vecsize")
     ok = c is not None and m is not None and c[0] == "proj" and m[0] == "proj" and c[1] == 0 and m[1] == 1 and c[2] == m[2] \
-        and c[2][0] == "call" and ctx.prog.fn(c[2][1]) is not None and c[2][2] == ("cast", "f64", ("param", vp))
+        and c[2][0] == "call" and ctx.prog.fn(c[2][1]) is not None
+    if ok:
+        cal = ctx.prog.fn(c[2][1])
+        pty0 = (cal.get("param_tys") or ["f64"])[0] if isinstance(cal, dict) else "f64"
+        # `cgr_maps(vecsize as f64)` for an f64 parameter, `cgr_maps(vecsize)` when the callee takes the integer and
+        # converts it itself (the table rule then reads the table with `param as f64` as the square size)
+        ok = c[2][2] == ("cast", "f64", ("param", vp)) if pty0 == "f64" else \
+            (pty0 in ("usize", "u64", "u32") and c[2][2] == ("param", vp))
     ctx.check(rule, "%s:maps" % adt, ok, "centre and map from one %s(vecsize as f64)" % (c[2][1] if ok else "cgr_maps"),
               "cgr_center / cgr_map are `%s` / `%s`; expected the two components of one cgr_maps(vecsize as f64)"
               % (show(c) if c else "?", show(m) if m else "?"), line_of(lit))
